@@ -4,6 +4,7 @@
 package main
 
 import (
+	"encoding/hex"
 	"context"
 	"encoding/json"
 	"fmt"
@@ -45,6 +46,39 @@ type Case struct {
 	HashOf  []uint64   `json:"hashof"`
 	Real    bool       `json:"realhash"` // use chord.Hash instead of the rank hash
 	Ops     []Op       `json:"ops"`
+	// Alphabet: the letters of the key names are stored as these bytes (hex); empty: as themselves
+	Alphabet map[string]string `json:"alphabet"`
+}
+
+// conc: the bytes a key name (letters) is stored as
+func (r *runner) conc(letters []string) []byte {
+	if len(r.c.Alphabet) == 0 {
+		return []byte(strings.Join(letters, ""))
+	}
+	out := []byte{}
+	for _, l := range letters {
+		h, ok := r.c.Alphabet[l]
+		if !ok {
+			panic("letter outside the alphabet: " + l)
+		}
+		b, err := hex.DecodeString(h)
+		if err != nil {
+			panic(err)
+		}
+		out = append(out, b...)
+	}
+	return out
+}
+
+// abs: the key name of stored bytes (for keys of the case), else the bytes in hex
+func (r *runner) abs(b []byte) string {
+	if len(r.c.Alphabet) == 0 {
+		return string(b)
+	}
+	if i, ok := r.name[string(b)]; ok {
+		return strings.Join(r.c.Keys[i], "")
+	}
+	return "?" + hex.EncodeToString(b)
 }
 
 const step = uint64(1) << 40
@@ -214,16 +248,20 @@ func (r *runner) do(op Op) map[string]any {
 		l, err := kv.PrefixList(r.ctx, key)
 		return map[string]any{"e": errName(err), "l": sortedStrs(l)}
 	case "listkeys":
-		ks, err := kv.ListKeys(r.ctx, []byte(strings.Join(op.P, "")))
+		ks, err := kv.ListKeys(r.ctx, r.conc(op.P))
 		out := [][]string{}
 		for _, k := range ks {
-			out = append(out, []string{string(k.GetKey()), k.GetType().String()})
+			out = append(out, []string{r.abs(k.GetKey()), k.GetType().String()})
 		}
 		sort.Slice(out, func(i, j int) bool { return out[i][0]+out[i][1] < out[j][0]+out[j][1] })
 		return map[string]any{"e": errName(err), "ks": out}
 	case "rangekeys":
 		ks, err := kv.RangeKeys(r.ctx, op.Lo*step, op.Hi*step)
-		return map[string]any{"e": errName(err), "ks": sortedStrs(ks)}
+		names := make([][]byte, len(ks))
+		for i, k := range ks {
+			names[i] = []byte(r.abs(k))
+		}
+		return map[string]any{"e": errName(err), "ks": sortedStrs(names)}
 	case "removekeys":
 		var ks [][]byte
 		for _, i := range op.Ks {
@@ -261,6 +299,9 @@ func (r *runner) do(op Op) map[string]any {
 			}
 			p["tokens_equal"] = toks
 			lk, _ := dst.kv.RangeKeys(r.ctx, 0, 0)
+			for i, k := range lk {
+				lk[i] = []byte(r.abs(k))
+			}
 			p["listed"] = sortedStrs(lk)
 			res[into] = p
 			// empty the destination again for the next transfer (verified empty before reuse)
@@ -335,7 +376,7 @@ func main() {
 		c := verifkit.Decode[Case](raw)
 		r := &runner{c: c, name: map[string]int{}, ctx: context.Background()}
 		for j, k := range c.Keys {
-			kb := []byte(strings.Join(k, ""))
+			kb := r.conc(k)
 			r.keys = append(r.keys, kb)
 			r.name[string(kb)] = j
 		}
